@@ -63,9 +63,12 @@ void ExecImpl::op_destroy_mock(const Op& op) {
   if (shadow) return;
   Obs o; obs_stack.push_back(&o);
   RMock& r = rmocks[id];
-  delete r.a; delete r.m; r.a = nullptr; r.m = nullptr;
+  const bool uw = (op.a[3] & 1) != 0;
+  if (uw) ++st.f_unwinding_death;
+  run_during_unwinding(uw, [&]() { delete r.a; delete r.m; });
+  r.a = nullptr; r.m = nullptr;
   obs_stack.pop_back();
-  check_reports(o, want, true, "destroy_mock", "C04,C15");
+  check_reports(o, want, true, uw ? "destroy_mock (by stack unwinding)" : "destroy_mock", "C04,C15");
   check_no_ok(o, "destroy_mock");
 }
 
@@ -208,9 +211,11 @@ void ExecImpl::op_destroy_seq(const Op& op) {
   bury_moved_from_seqs();
   if (stop) return;
   Obs o; obs_stack.push_back(&o);
-  rseqs[id].reset();
+  const bool uw = (op.a[3] & 1) != 0;
+  if (uw) ++st.f_unwinding_death;
+  run_during_unwinding(uw, [&]() { rseqs[id].reset(); });
   obs_stack.pop_back();
-  check_reports(o, want, false, "destroy_seq", "C06,C15");
+  check_reports(o, want, false, uw ? "destroy_seq (by stack unwinding)" : "destroy_seq", "C06,C15");
   check_no_ok(o, "destroy_seq");
 }
 
